@@ -481,6 +481,7 @@ func (r *runner) checkEvent(ev *pipeline.Event, clause, what string) string {
 			} else {
 				r.o.Excluded(P)
 				r.o.Class("excluded:" + sig)
+				lastExec.excluded = true
 			}
 			return enc
 		}
@@ -631,12 +632,13 @@ func exec(c Case) *vkit.Outcome {
 			o.Class("rejected-by-start-fatal:" + c.Plugin)
 		} else {
 			o.Class("rejected-by-start-panic:" + c.Plugin)
-			vkit.Note(P, fmt.Sprintf("Start of %s panicked (counted as rejected configuration): %v", c.Plugin, clip(fmt.Sprint(rec), 120)))
+			vkit.Note(P, fmt.Sprintf("Start of %s panicked (counted as rejected configuration): %v", c.Plugin, clip(reDigits.ReplaceAllString(fmt.Sprint(rec), "N"), 120)))
 		}
 		_, _ = fdkit.CatchPanic(ap.Stop) // goroutines Start may already have spawned
 		return o
 	}
 	o.Class("accepted:" + c.Plugin)
+	lastExec.accepted = true
 	defer func() {
 		if rec, stack := fdkit.CatchPanic(ap.Stop); rec != nil {
 			o.Failf(P, "stop-panics:"+c.Plugin, "Stop panicked: %v\n%s", rec, shortStack(stack))
